@@ -119,8 +119,11 @@ func (s *Server) Set(ctx context.Context, req *gnmi.SetRequest) (*gnmi.SetRespon
 			return nil, errors.Status(errors.NewInvalid(
 				"gNMI Set must contain only 1 target. Found: %d. GNMI_SET_SIZE_LIMIT=%d", len(targets), s.gnmiSetSizeLimit)).Err()
 		}
+		// the limit bounds the operations of the request as well as the values they expand to
+		// (updates repeating a path collapse into one entry of the updates map)
+		operations := len(req.GetUpdate()) + len(req.GetReplace()) + len(req.GetDelete())
 		for target, chanages := range targets {
-			if len(chanages.updates)+len(chanages.removes) > s.gnmiSetSizeLimit {
+			if operations > s.gnmiSetSizeLimit || len(chanages.updates)+len(chanages.removes) > s.gnmiSetSizeLimit {
 				return nil, errors.Status(errors.NewInvalid(
 					"number of updates and deletes in a gNMI Set must not exceed %d. Target: %s Updates: %d, Deletes %d",
 					s.gnmiSetSizeLimit, target, len(chanages.updates), len(chanages.removes))).Err()
